@@ -13,6 +13,16 @@ WRONG_SHAPE_EXT = ('surplus-right-link', 'missing-right-link')
 FAILING_EXT = ('status-error', 'bad-mac', 'no-reply', 'wrong-id', 'error-pdu')
 
 
+SAME_LEN = {1: [8, 0x0b], 0: [2], 2: [0], 4: [9], 5: [0x0a]}      # algorithm ids with equal digest length
+
+
+def _differing(h, rng):
+    """an imprint that differs from h: usually in a digest bit, sometimes ONLY in the algorithm identifier (same digest octets)"""
+    if rng.random() < 0.3 and h[0] in SAME_LEN:
+        return bytes([rng.choice(SAME_LEN[h[0]])]) + h[1:]
+    return gen._flip_digest(h, rng)
+
+
 class World:
     def __init__(self, d):
         self.d = d
@@ -313,7 +323,7 @@ def worker(job, r):
         upk = rng.choice(['none', 'match', 'match', 'hash-differs', 'time-later', 'time-earlier'])
         if kind in ('pub',) and upk in ('match', 'hash-differs'):
             tu = s.cal.pub_time
-            hu = s.cal.root() if upk == 'match' else gen._flip_digest(s.cal.root(), rng)
+            hu = s.cal.root() if upk == 'match' else _differing(s.cal.root(), rng)
         elif upk == 'none':
             tu = hu = None
         elif upk == 'time-earlier':
@@ -323,7 +333,7 @@ def worker(job, r):
             tu = t + rng.choice([1, 86400, 86400 * 20])
             hu = w.cal.chain(t, tu, s.root).root()
             if upk == 'hash-differs':
-                hu = gen._flip_digest(hu, rng)
+                hu = _differing(hu, rng)
         userpub = (tu, hu) if tu is not None else None
         pfk = rng.choice(['none', 'match', 'match', 'hash-differs', 'only-earlier', 'empty'])
         if pfk == 'none':
@@ -334,10 +344,10 @@ def worker(job, r):
                 if pt >= t:
                     h = w.cal.chain(t, pt, s.root).root()
                     if pfk == 'hash-differs':
-                        h = gen._flip_digest(h, rng)
+                        h = _differing(h, rng)
                     F.append((pt, h))
             if kind == 'pub' and pfk in ('match', 'hash-differs') and s.cal.pub_time not in [x[0] for x in F]:
-                h = s.cal.root() if pfk == 'match' else gen._flip_digest(s.cal.root(), rng)
+                h = s.cal.root() if pfk == 'match' else _differing(s.cal.root(), rng)
                 F.append((s.cal.pub_time, h))
             if pfk == 'only-earlier':
                 F = [(t - 86400 * k, gen.rnd_imprint(rng, 1)) for k in (1, 30)]
